@@ -155,4 +155,58 @@ theorem src_trend_linear_in_data (degree : Nat) (es ns d₁ d₂ c₁ c₂ c : L
   simp only [Gen.vecOf] at key
   rw [key]
 
+section SplinePipeline
+open PReal
+
+theorem vecOf_lin_real (d₁ d₂ : List ℝ) (a b : ℝ) (m : Nat) (hl : d₁.length = d₂.length) :
+    Gen.vecOf (List.zipWith (fun x y => a * x + b * y) d₁ d₂) m = fun i => a * Gen.vecOf d₁ m i + b * Gen.vecOf d₂ m i := by
+  funext i
+  simp only [Gen.vecOf, List.getD_eq_getElem?_getD, List.getElem?_zipWith]
+  by_cases h : i.val < d₁.length
+  · have h2 : i.val < d₂.length := by omega
+    simp [List.getElem?_eq_getElem h, List.getElem?_eq_getElem h2]
+  · have h2 : ¬ i.val < d₂.length := by omega
+    simp [List.getElem?_eq_none (Nat.le_of_not_lt h), List.getElem?_eq_none (Nat.le_of_not_lt h2)]
+
+/-- **The whole Spline pipeline is linear in the data — about the source as it is now.**  `f₁`, `f₂`, `f` are what the regenerated `Spline.fit`
+    leaves in `force_` for the data `d₁`, `d₂` and `a·d₁ + b·d₂` (same coordinates, weights, damping, force positions, hence the same Jacobian
+    `J` of the regenerated `jacobian_numpy`); if the damped normal matrix is injective, the regenerated `Spline.predict` (over the regenerated
+    `predict_numpy` and kernel) satisfies `predict(a·d₁ + b·d₂) = a·predict(d₁) + b·predict(d₂)` at every location whose kernel row is
+    defined (`row`: the kernel between the query and each force). -/
+theorem src_spline_linear_in_data (mindist : ℝ) (damping : Option ℝ) (sfc : Option (List (List ℝ))) (coords : List (List ℝ))
+    (d₁ d₂ f₁ f₂ f : List ℝ) (w : Option (List ℝ)) (a b : ℝ) (fe fn : List ℝ) (J : List (List ℝ)) (n : Nat) (scale : Fin n → ℝ)
+    (hs : ∀ j, scale j ≠ 0) (hl : d₁.length = d₂.length)
+    (hinj : LS.Injective' (Gen.matOf J n) (Gen.weightsOf w J.length) (damping.getD 0) (fun j => scale j ^ 2))
+    (h₁ : Gen.splineFitSpec mindist damping sfc coords d₁ w [fe, fn] J n scale f₁)
+    (h₂ : Gen.splineFitSpec mindist damping sfc coords d₂ w [fe, fn] J n scale f₂)
+    (hq : Gen.splineFitSpec mindist damping sfc coords (List.zipWith (fun x y => a * x + b * y) d₁ d₂) w [fe, fn] J n scale f)
+    (hfe : fe.length = n) (hfn : fn.length = n) (hf₁ : f₁.length = n) (hf₂ : f₂.length = n) (hf : f.length = n)
+    (e nq : ℝ) (row : List ℝ)
+    (hrow : ((fe.map fin).zip (fn.map fin)).map (fun p => greens (fin e - p.1) (fin nq - p.2) (fin mindist)) = row.map fin) :
+    ∃ x₁ x₂ : ℝ,
+      Gen.splinePredict [fe.map fin, fn.map fin] (fin mindist) (f₁.map fin) [[fin e], [fin nq]] = [fin x₁] ∧
+      Gen.splinePredict [fe.map fin, fn.map fin] (fin mindist) (f₂.map fin) [[fin e], [fin nq]] = [fin x₂] ∧
+      Gen.splinePredict [fe.map fin, fn.map fin] (fin mindist) (f.map fin) [[fin e], [fin nq]] = [fin (a * x₁ + b * x₂)] := by
+  obtain ⟨_, _, hls₁⟩ := h₁
+  obtain ⟨_, _, hls₂⟩ := h₂
+  obtain ⟨_, _, hlsq⟩ := hq
+  rw [vecOf_lin_real d₁ d₂ a b _ hl] at hlsq
+  have hrl : row.length = n := by
+    have := congrArg List.length hrow
+    simp only [List.length_map, List.length_zip, hfe, hfn, Nat.min_self] at this
+    exact this.symm
+  have key := src_least_squares_fit_linear _ _ _ _ damping scale _ _ _ a b hs hinj hls₁ hls₂ hlsq (fun k => row.getD k 0)
+  have pred : ∀ g : List ℝ, g.length = n →
+      Gen.splinePredict [fe.map fin, fn.map fin] (fin mindist) (g.map fin) [[fin e], [fin nq]] = [fin (∑ k : Fin n, row.getD k 0 * g.getD k 0)] := by
+    intro g hg
+    rw [C03.gen_spline_predict_eq_model _ _ _ _ _ [] [] _ (by simp [hfe, hg]) (by simp [hfn, hg]), C03.spline_predict_eq_jac_mul]
+    simp only [splineJac, List.map_cons, List.map_nil]
+    rw [hrow, C03.zipWith_mul_fin, C03.psum_map_fin, C03.sum_zipWith_eq_finsum _ _ n hrl hg]
+  refine ⟨_, _, pred f₁ hf₁, pred f₂ hf₂, ?_⟩
+  rw [pred f hf]
+  simp only [Gen.vecOf] at key
+  rw [key]
+
+end SplinePipeline
+
 end Verde.C04
